@@ -438,6 +438,213 @@ def long_libs(g):
             out.append(("long_xy_%s_%d" % (k, n), base_lib(b"l", [{"name": b"c", "dates": [0] * 12, "elems": [e]}])))
     return out
 
+# ---------------------------------------------------------------- directed families (generator audit 2026-10-02)
+# Small deterministic libraries, one per combination, for input classes the random generator produces never or
+# only by luck. They draw nothing from the PRNG (so the random families of every check stay what they were).
+def plain_elem(k):
+    """an element of kind k with fixed mandatory fields and NO optional field"""
+    e = {"k": k}
+    if k in ("boundary", "path", "node", "box", "text"):
+        e["layer"] = 1
+    if k in ("boundary", "path"):
+        e["datatype"] = 2
+    if k == "node":
+        e["nodetype"] = 3
+    if k == "box":
+        e["boxtype"] = 4
+    if k in ("boundary", "path", "node"):
+        e["xy"] = [0, 0, 10, 0, 10, -10, 0, 0]
+    if k == "box":
+        e["xy"] = [0, 0, 10, 0, 10, 10, 0, 10, 0, 0]
+    if k == "path":
+        e["width"] = None; e["path_type"] = None; e["begin_extn"] = None; e["end_extn"] = None
+    if k in ("sref", "aref"):
+        e["name"] = b"ref"
+    if k == "sref":
+        e["xy"] = [5, -6]
+    if k == "aref":
+        e["xy"] = [0, 0, 30, 0, 0, 40]; e["cols"] = 3; e["rows"] = 4
+    if k == "text":
+        e["string"] = b"txt"; e["texttype"] = 5; e["xy"] = [7, 8]
+        e["presentation"] = None; e["path_type"] = None; e["width"] = None
+    if k in ("sref", "aref", "text"):
+        e["strans"] = None
+    e["elflags"] = None; e["plex"] = None; e["props"] = []
+    return e
+
+def plain_strans(**kw):
+    s = {"r": False, "am": False, "aa": False, "mag": None, "angle": None}
+    s.update(kw)
+    return s
+
+def one_elem_lib(e, name=b"L"):
+    return base_lib(name, [{"name": b"cell", "dates": [0] * 12, "elems": [e]}])
+
+def default_valued_libs():
+    """Optional fields that are PRESENT but hold the value a tool assumes when they are absent (WIDTH 0, PATHTYPE 0, MAG 1.0,
+    ANGLE 0.0, an all-clear STRANS / ELFLAGS / PRESENTATION, PLEX 0, extensions 0, a property with attribute 0 and an empty value):
+    `Some(default)` and `None` are different library values, a writer or reader that 'normalises' one into the other breaks
+    C01/C02/C03/C10 and nothing else shows it. One library per (element kind, field). -> [(name, lib)]"""
+    out = []
+    def add(k, what, **kw):
+        e = plain_elem(k)
+        e.update(kw)
+        out.append(("default_%s_%s" % (k, what), one_elem_lib(e)))
+    for k in KINDS:
+        add(k, "elflags00", elflags=[0, 0])
+        add(k, "plex0", plex=0)
+        add(k, "prop0empty", props=[(0, b"")])
+    for f in ("width", "path_type", "begin_extn", "end_extn"):
+        add("path", f + "0", **{f: 0})
+    add("text", "presentation00", presentation=[0, 0])
+    add("text", "path_type0", path_type=0)
+    add("text", "width0", width=0)
+    for k in ("sref", "aref", "text"):
+        add(k, "strans_clear", strans=plain_strans())
+        add(k, "mag1", strans=plain_strans(mag=f2b(1.0)))
+        add(k, "angle0", strans=plain_strans(angle=f2b(0.0)))
+        add(k, "mag1_angle0", strans=plain_strans(mag=f2b(1.0), angle=f2b(0.0)))
+        add(k, "mag0", strans=plain_strans(mag=f2b(0.0)))
+    # every number zero, every string empty
+    zs = []
+    for k in KINDS:
+        e = plain_elem(k)
+        for f, v in list(e.items()):
+            if isinstance(v, int) and not isinstance(v, bool):
+                e[f] = 0
+            elif isinstance(v, list) and f == "xy":
+                e[f] = [0] * len(v)
+            elif isinstance(v, bytes):
+                e[f] = b""
+        zs.append(e)
+    l = base_lib(b"", [{"name": b"", "dates": [0] * 12, "elems": zs}])
+    l["version"] = 0; l["dates"] = [0] * 12; l["units"] = [0, 0]
+    out.append(("default_all_zero", l))
+    return out
+
+def strans_flag_libs(kind):
+    """all 8 STRANS flag combinations x {no real, MAG, ANGLE, both} on one element kind (sref / aref / text): 32 libraries"""
+    out = []
+    for m in range(8):
+        for q in range(4):
+            e = plain_elem(kind)
+            e["strans"] = {"r": bool(m & 1), "am": bool(m & 2), "aa": bool(m & 4),
+                           "mag": f2b(2.5) if q & 1 else None, "angle": f2b(33.0) if q & 2 else None}
+            out.append(("strans_%s_r%d_am%d_aa%d_%s" % (kind, m & 1, m >> 1 & 1, m >> 2 & 1, ["none", "mag", "angle", "both"][q]), one_elem_lib(e)))
+    return out
+
+def mid_len_libs(full=False):
+    """record lengths at the one-byte and the signed-16-bit boundaries (the random strings stop at 44 bytes, the long family
+    starts at 65530): strings of 249..258 bytes (record 254..262), XY of 31/32 points (record 252/260), strings around
+    32764 bytes (record 32768) and 32767 bytes (payload 32768), XY of 4095/4096 points (record 32764/32772)"""
+    out = []
+    es = []
+    for n in range(249, 259):
+        e = plain_elem("text"); e["string"] = b"s" * (n - 1) + b"e"
+        es.append(e)
+    out.append(("mid_str_256", base_lib(b"l", [{"name": b"c", "dates": [0] * 12, "elems": es}])))
+    es = []
+    for n in (31, 32, 63, 64):
+        e = plain_elem("boundary"); e["xy"] = [3, -4] * n
+        es.append(e)
+    out.append(("mid_xy_256", base_lib(b"l", [{"name": b"c", "dates": [0] * 12, "elems": es}])))
+    for i, n in enumerate((32762, 32764, 32767) if not full else (32762, 32763, 32764, 32765, 32766, 32767, 32768)):
+        s = b"a" * (n - 1) + b"z"
+        if i % 3 == 0:
+            e = plain_elem("text"); e["string"] = s
+        elif i % 3 == 1:
+            e = plain_elem("node"); e["props"] = [(7, s)]
+        else:
+            e = plain_elem("sref"); e["name"] = s
+        out.append(("mid_str_32768_%d" % n, base_lib(b"l", [{"name": b"c", "dates": [0] * 12, "elems": [e]}])))
+    for n, k in ((4095, "path"), (4096, "node")):
+        e = plain_elem(k); e["xy"] = [-5, 6] * n
+        out.append(("mid_xy_32768_%d" % n, base_lib(b"l", [{"name": b"c", "dates": [0] * 12, "elems": [e]}])))
+    return out
+
+def dup_libs():
+    """the same thing twice: structs sharing a name (GDSII does not forbid it; a reader or writer keyed by name loses one),
+    identical structs, identical elements, properties sharing an attribute number, one name used at every level"""
+    out = []
+    b1 = plain_elem("boundary"); t1 = plain_elem("text"); s1 = plain_elem("sref"); s1["name"] = b"a"
+    out.append(("dup_struct_names", base_lib(b"l", [
+        {"name": b"a", "dates": [1] * 12, "elems": [b1]}, {"name": b"a", "dates": [2] * 12, "elems": [t1, s1]},
+        {"name": b"b", "dates": [3] * 12, "elems": []}, {"name": b"a", "dates": [4] * 12, "elems": []}])))
+    st = {"name": b"same", "dates": [5] * 12, "elems": [plain_elem("box"), plain_elem("node")]}
+    out.append(("dup_structs_identical", base_lib(b"l", [copy.deepcopy(st), copy.deepcopy(st), copy.deepcopy(st)])))
+    out.append(("dup_elems_identical", base_lib(b"l", [{"name": b"c", "dates": [0] * 12,
+                "elems": [plain_elem("sref"), plain_elem("sref"), plain_elem("boundary"), plain_elem("boundary"), plain_elem("sref"), plain_elem("aref"), plain_elem("aref")]}])))
+    e = plain_elem("path"); e["props"] = [(5, b"x"), (5, b"y"), (5, b"x"), (-5, b"x"), (5, b"")]
+    e2 = plain_elem("text"); e2["props"] = [(1, b"v"), (1, b"v")]
+    out.append(("dup_prop_attr", base_lib(b"l", [{"name": b"c", "dates": [0] * 12, "elems": [e, e2]}])))
+    s2 = plain_elem("sref"); s2["name"] = b"n"
+    t2 = plain_elem("text"); t2["string"] = b"n"; t2["props"] = [(1, b"n")]
+    out.append(("dup_one_name_everywhere", base_lib(b"n", [{"name": b"n", "dates": [0] * 12, "elems": [s2, t2]}, {"name": b"n", "dates": [0] * 12, "elems": []}])))
+    return out
+
+def special_string_libs():
+    """white space and control characters at the ends of / inside strings (the random alphabet has the blank only):
+    a reader that trims, or a writer that filters non-printable characters, changes them"""
+    strs = [b"\t", b"a\nb", b" a", b"a ", b"\r\n", b"\x01\x1f\x7f", b"  ", b"a\tb c", b"\n", b" ", b"x\x0b\x0c",
+            "\u00a0a\u00a0".encode("utf8"), "a\u0085".encode("utf8"), "\u2003a\u3000".encode("utf8")]
+    es = []
+    for s in strs:
+        e = plain_elem("text"); e["string"] = s; e["props"] = [(1, s)]
+        es.append(e)
+    out = [("special_str_text", base_lib(b" lib\t", [{"name": b"c", "dates": [0] * 12, "elems": es}]))]
+    structs = []
+    for s in strs:
+        r = plain_elem("sref"); r["name"] = s
+        structs.append({"name": s, "dates": [0] * 12, "elems": [r]})
+    out.append(("special_str_names", base_lib(b"\n", structs)))
+    return out
+
+def many_libs(n=1030):
+    """more items than the capacity hints of the reader (Vec::with_capacity(1024)): n structs, n elements in one struct,
+    48 properties on one element"""
+    out = []
+    out.append(("many_structs", base_lib(b"l", [{"name": b"s%d" % i, "dates": [0] * 12, "elems": []} for i in range(n)])))
+    es = []
+    for i in range(n):
+        e = plain_elem("boundary"); e["xy"] = []; e["layer"] = i % 7
+        es.append(e)
+    out.append(("many_elems", base_lib(b"l", [{"name": b"c", "dates": [0] * 12, "elems": es}])))
+    e = plain_elem("node"); e["props"] = [(i, b"v%d" % i) for i in range(48)]
+    out.append(("many_props", one_elem_lib(e)))
+    return out
+
+def directed_libs(seed=1, quick=True, many=True):
+    """all directed families -> [(family, case name, lib)]; many: True, False or the names of the `many` cases wanted"""
+    out = []
+    out += [("default_valued", n, l) for n, l in default_valued_libs()]
+    kinds = ("sref", "aref", "text")
+    for k in (kinds[seed % 3],) if quick else kinds:
+        out += [("strans_flags", n, l) for n, l in strans_flag_libs(k)]
+    out += [("mid_len", n, l) for n, l in mid_len_libs(full=not quick)]
+    out += [("dup", n, l) for n, l in dup_libs()]
+    out += [("special_str", n, l) for n, l in special_string_libs()]
+    if many:
+        out += [("many", n, l) for n, l in many_libs() if many is True or n in many]
+    return out
+
+HEAVY_PREFIXES = ("long_", "mid_str_32768", "mid_xy_32768", "many_", "file_io_long")
+def spread_heavy(cases):
+    """re-order so that the few cases that cost seconds each inside Coq (payloads of 32 KB and more, a thousand structs) do not end
+    up in one coqc shard (the shards are consecutive slices of the case list and run in parallel)"""
+    heavy = [c for c in cases if str(c["kind"]).startswith(HEAVY_PREFIXES)]
+    light = [c for c in cases if not str(c["kind"]).startswith(HEAVY_PREFIXES)]
+    if not heavy or not light:
+        return cases
+    step = max(1, len(light) // len(heavy))
+    out = []
+    h = 0
+    for i, c in enumerate(light):
+        if i % step == 0 and h < len(heavy):
+            out.append(heavy[h]); h += 1
+        out.append(c)
+    out.extend(heavy[h:])
+    return out
+
 # ---------------------------------------------------------------- running
 def hex_of(b):
     return bytes(b).hex()
